@@ -140,11 +140,12 @@ ArithPool ==
   << [c |-> 0, t |-> "1 + 2",   m |-> <<"lit:1", "lit:+", "lit:2">>],
      [c |-> 1, t |-> "x<y",     m |-> <<"lit:x<y">>],
      [c |-> 1, t |-> "$v > (1)", m |-> <<"pe[", "name:v", "]pe", "lit:>", "lit:(1)">>],
-     \* parts on several lines, the second line starting in the columns 1..4
-     [c |-> 1, t |-> "a -\n-b",    m |-> <<"lit:a", "lit:-", "lit:-b">>],
-     [c |-> 1, t |-> "a -\n -b",   m |-> <<"lit:a", "lit:-", "lit:-b">>],
-     [c |-> 1, t |-> "a -\n  -b",  m |-> <<"lit:a", "lit:-", "lit:-b">>],
-     [c |-> 1, t |-> "a -\n   -b", m |-> <<"lit:a", "lit:-", "lit:-b">>] >>
+     \* parts on several lines; the second line starts in column 1 or near the column where the first line ended
+     \* (the printer decides on blanks between parts from their positions)
+     [c |-> 1, t |-> "a -\n-b",       m |-> <<"lit:a", "lit:-", "lit:-b">>],
+     [c |-> 1, t |-> "a -\n    -b",   m |-> <<"lit:a", "lit:-", "lit:-b">>],
+     [c |-> 1, t |-> "a -\n     -b",  m |-> <<"lit:a", "lit:-", "lit:-b">>],
+     [c |-> 1, t |-> "a -\n      -b", m |-> <<"lit:a", "lit:-", "lit:-b">>] >>
 
 (***************************************************************************)
 (* Alternatives.                                                            *)
@@ -164,6 +165,9 @@ Alts(nt) ==
          << A(0, <<M("ln["), NT("list", 0, TRUE, FALSE, FALSE, ""),  M("]ln"), NLF>>),
             A(1, <<M("ln["), NT("list", 0, TRUE, FALSE, FALSE, ";"), M("]ln"), NLF>>),
             A(1, <<M("ln["), NT("list", 0, TRUE, FALSE, FALSE, "&"), M("]ln"), NLF>>) >>
+    \* ---------------------------------------------------------- word focus: one argument word, the budget goes into its parts
+    [] nt.n = "wprog" ->
+         << A(0, <<M("ln["), M("ao["), M("pl["), M("c["), M("simple["), T("a")>> \o WLit("a") \o <<Word(nt), M("]simple"), M("]c"), M("]pl"), M("]ao"), M("]ln"), NLF>>) >>
     \* ---------------------------------------------------------- here-document focus (C08)
     [] nt.n = "hd0" -> [i \in 1..Len(HereDocs) |-> [HereAlt(HereDocs[i], "") EXCEPT !.c = 0]]
                        \o << [HereAlt(HereDocs[5], "4") EXCEPT !.c = 0] >>
@@ -366,7 +370,10 @@ Alts(nt) ==
             A(1, <<M("w["), TA("'}'"), M("sq["), M("lit:}"), M("]sq"), M("]w")>>),
             A(1, <<M("w["), TA("\"$v\""), M("dq["), M("pe["), M("name:v"), M("]pe"), M("]dq"), M("]w")>>),
             A(1, <<M("w["), TA("${v:-${w}}"), M("pe["), M("braces"), M("name:v"), M("peop::-"), M("w["), M("pe["), M("braces"), M("name:w"), M("]pe"), M("]w"), M("]pe"), M("]w")>>),
-            A(1, <<M("w["), TA("*/"), M("lit:*/"), M("]w")>>) >>
+            A(1, <<M("w["), TA("*/"), M("lit:*/"), M("]w")>>),
+            \* literal text in front of an expansion / a quotation inside the word
+            A(1, <<M("w["), TA("b$c"), M("lit:b"), M("pe["), M("name:c"), M("]pe"), M("]w")>>),
+            A(1, <<M("w["), TA("/t/${U}\"q\"r"), M("lit:/t/"), M("pe["), M("braces"), M("name:U"), M("]pe"), M("dq["), M("lit:q"), M("]dq"), M("lit:r"), M("]w")>>) >>
     [] nt.n = "cslist" ->   \* body of a command substitution: touches both delimiters, no here-document
          << A(0, <<M("ln["), P(nt, NT("list", nt.d, FALSE, TRUE, TRUE, "")), M("]ln")>>) >>
     [] nt.n = "cshd" ->     \* a command substitution that holds a here-document (and its newlines)
